@@ -34,9 +34,18 @@ DOCS = [
             '\\foreignlanguage{french}{un deux trois quatre} three\n', ['--multi-language']),
     ('ml_short', '\\usepackage[english]{babel}\nOne \\foreignlanguage{german}{zwei} two '
                  '\\selectlanguage{german}Drei vier.\n', ['--multi-language']),
+    ('ml_adjacent', '\\usepackage[english]{babel}\nOne worda \\foreignlanguage{german}{wortb}'
+                    '\\foreignlanguage{french}{motc est la fin de tout} worde two.\n', ['--multi-language']),
     ('indent', '  Lead\n\tTabbed wörd\n\n   Last\n', []),
     ('ctrl', 'Page\x0c one\u2028two\x0b three\x85\n% \x1c \x1d \x1e\nFour five.\n', []),
 ]
+
+
+# independent of the filter: the language in force at some words of the multi-language documents
+WORDLANG = {'zwei': 'de-DE', 'drei': 'de-DE', 'vier': 'de-DE', 'funf': 'de-DE', 'un': 'fr', 'deux': 'fr',
+            'trois': 'fr', 'quatre': 'fr', 'One': 'en-GB', 'two': 'en-GB', 'two.': 'en-GB', 'three': 'en-GB',
+            'Drei': 'de-DE', 'vier.': 'de-DE', 'worda': 'en-GB', 'wortb': 'de-DE', 'motc': 'fr', 'est': 'fr',
+            'fin': 'fr', 'tout': 'fr', 'worde': 'en-GB'}
 
 
 def runs_of(plain, cm, tex):
@@ -128,6 +137,11 @@ def judge(env, tex, lang, parts, pi, o, l, T, fixed, nt=_Null):
         if c['plain'] != pp or c['language'] != plang:
             return 'C14 part %d submitted as %r/%r, expected %r/%r' % (
                 n, c['language'], c['plain'][:30], plang, pp[:30])
+        if cmd.multi_language:
+            for w in c['plain'].split():
+                if WORDLANG.get(w, c['language']) != c['language']:
+                    return 'C14 the word %r is submitted under the language code %r, the ' \
+                           'language in force there is %r' % (w, c['language'], WORDLANG[w])
         exp_dis = 'WS,MLRULE' if (cmd.multi_language and len(pp.split()) <= T) else 'WS'
         if c['disable'] != exp_dis:
             return 'C14 part %d (%d words) checked with --disable %r, expected %r (threshold ' \
